@@ -1,4 +1,329 @@
 import ClipVerif.Spec.Wind
+import Mathlib.Tactic.Ring
+import Mathlib.Tactic.Linarith
+import Mathlib.Tactic.NormNum
+import Mathlib.Algebra.Order.Ring.Rat
 /- helper lemmas about `Spec.wind` (shared by C02, C13, C15, C17) -/
 namespace Proofs.C17
+open Spec
+
+/-! ### sums over the cyclic edge list -/
+
+/-- sum of `f` over the consecutive pairs of an (open) chain of vertices -/
+def chain (f : IPt → IPt → Int) : List IPt → Int
+  | [] => 0
+  | [_] => 0
+  | a :: b :: rest => f a b + chain f (b :: rest)
+
+/-- sum of `f` over the cyclic edge list -/
+def cyc (f : IPt → IPt → Int) (path : List IPt) : Int :=
+  ((edgesOf path).map (fun e => f e.1 e.2)).sum
+
+theorem wind_eq_cyc (path : List IPt) (p : QPt) : wind path p = cyc (fun a b => edgeW a b p) path := rfl
+
+theorem area2_eq_cyc (path : List IPt) :
+    area2 path = cyc (fun a b => (a.y + b.y) * (a.x - b.x)) path := rfl
+
+theorem zip_sum_eq_chain (f : IPt → IPt → Int) (rest : List IPt) : ∀ (a z : IPt),
+    (((a :: rest).zip (rest ++ [z])).map (fun e => f e.1 e.2)).sum = chain f (a :: rest ++ [z]) := by
+  induction rest with
+  | nil => intro a z; simp [chain]
+  | cons b rest ih =>
+    intro a z
+    have := ih b z
+    simp only [List.cons_append, List.zip_cons_cons, List.map_cons, List.sum_cons, chain] at this ⊢
+    rw [this]
+
+theorem cyc_cons (f : IPt → IPt → Int) (a : IPt) (rest : List IPt) :
+    cyc f (a :: rest) = chain f (a :: rest ++ [a]) := by
+  unfold cyc edgesOf
+  exact zip_sum_eq_chain f rest a a
+
+theorem chain_append (f : IPt → IPt → Int) (m : IPt) (l2 : List IPt) : ∀ (l1 : List IPt),
+    chain f (l1 ++ m :: l2) = chain f (l1 ++ [m]) + chain f (m :: l2) := by
+  intro l1
+  induction l1 with
+  | nil => simp [chain]
+  | cons x l1 ih =>
+    cases l1 with
+    | nil => simp [chain]
+    | cons y l1 =>
+      simp only [List.cons_append, chain] at ih ⊢
+      rw [ih]; omega
+
+theorem cyc_append_comm (f : IPt → IPt → Int) (l1 l2 : List IPt) :
+    cyc f (l1 ++ l2) = cyc f (l2 ++ l1) := by
+  cases l1 with
+  | nil => simp
+  | cons a l1 =>
+    cases l2 with
+    | nil => simp
+    | cons b l2 =>
+      have e1 : cyc f (a :: l1 ++ b :: l2) = chain f ((a :: l1) ++ b :: (l2 ++ [a])) := by
+        rw [List.cons_append, cyc_cons]; simp
+      have e2 : cyc f (b :: l2 ++ a :: l1) = chain f ((b :: l2) ++ a :: (l1 ++ [b])) := by
+        rw [List.cons_append, cyc_cons]; simp
+      rw [e1, e2, chain_append f b (l2 ++ [a]) (a :: l1), chain_append f a (l1 ++ [b]) (b :: l2)]
+      simp only [List.cons_append]
+      omega
+
+theorem cyc_rot (f : IPt → IPt → Int) (l : List IPt) (k : Nat) :
+    cyc f (l.drop k ++ l.take k) = cyc f l := by
+  rw [cyc_append_comm, List.take_append_drop]
+
+theorem chain_reverse (f : IPt → IPt → Int) : ∀ (l : List IPt),
+    chain f l.reverse = chain (fun a b => f b a) l := by
+  intro l
+  induction l with
+  | nil => simp [chain]
+  | cons a l ih =>
+    cases l with
+    | nil => simp [chain]
+    | cons b l =>
+      have h : (a :: b :: l).reverse = (b :: l).reverse.dropLast ++ b :: [a] := by
+        simp [List.reverse_cons]
+      rw [h, chain_append]
+      have h' : (b :: l).reverse.dropLast ++ [b] = (b :: l).reverse := by
+        simp [List.reverse_cons]
+      rw [h', ih]
+      simp only [chain]
+      omega
+
+theorem cyc_reverse (f : IPt → IPt → Int) (l : List IPt) :
+    cyc f l.reverse = cyc (fun a b => f b a) l := by
+  cases l with
+  | nil => simp [cyc, edgesOf]
+  | cons a rest =>
+    rw [List.reverse_cons, cyc_append_comm, List.singleton_append, cyc_cons, cyc_cons]
+    have h : a :: rest.reverse ++ [a] = (a :: rest ++ [a]).reverse := by simp
+    rw [h, chain_reverse]
+
+theorem chain_neg (f : IPt → IPt → Int) : ∀ l : List IPt,
+    chain (fun a b => - f a b) l = - chain f l := by
+  intro l
+  induction l with
+  | nil => simp [chain]
+  | cons a l ih =>
+    cases l with
+    | nil => simp [chain]
+    | cons b l => simp only [chain] at ih ⊢; rw [ih]; omega
+
+theorem cyc_neg (f : IPt → IPt → Int) (l : List IPt) :
+    cyc (fun a b => - f a b) l = - cyc f l := by
+  cases l with
+  | nil => simp [cyc, edgesOf]
+  | cons a rest => rw [cyc_cons, cyc_cons, chain_neg]
+
+theorem cyc_congr (f g : IPt → IPt → Int) (h : ∀ a b, f a b = g a b) (l : List IPt) :
+    cyc f l = cyc g l := by
+  have : f = g := by funext a b; exact h a b
+  rw [this]
+
+/-- reversal under an antisymmetric weight -/
+theorem cyc_reverse_antisymm (f : IPt → IPt → Int) (hf : ∀ a b, f b a = - f a b) (l : List IPt) :
+    cyc f l.reverse = - cyc f l := by
+  rw [cyc_reverse, ← cyc_neg]
+  exact cyc_congr _ _ hf l
+
+theorem chain_repeat (f : IPt → IPt → Int) (v : IPt) (hv : f v v = 0) (post : List IPt) :
+    ∀ pre : List IPt, chain f (pre ++ v :: v :: post) = chain f (pre ++ v :: post) := by
+  intro pre
+  rw [chain_append, chain_append f v post]
+  simp [chain, hv]
+
+theorem cyc_repeat (f : IPt → IPt → Int) (v : IPt) (hv : f v v = 0) (pre post : List IPt) :
+    cyc f (pre ++ v :: v :: post) = cyc f (pre ++ v :: post) := by
+  rw [cyc_append_comm, cyc_append_comm f pre]
+  simp only [List.cons_append]
+  rw [cyc_cons, cyc_cons]
+  have h1 : v :: v :: (post ++ pre) ++ [v] = [] ++ v :: v :: (post ++ pre ++ [v]) := by simp
+  have h2 : v :: (post ++ pre) ++ [v] = [] ++ v :: (post ++ pre ++ [v]) := by simp
+  rw [h1, h2, chain_repeat f v hv]
+
+theorem cyc_closing (f : IPt → IPt → Int) (v : IPt) (hv : f v v = 0) (rest : List IPt) :
+    cyc f (v :: rest ++ [v]) = cyc f (v :: rest) := by
+  have h : v :: rest ++ [v] = (v :: rest) ++ [v] := by simp
+  rw [h, cyc_append_comm, List.singleton_append]
+  exact cyc_repeat f v hv [] rest
+
+/-- telescoping: a difference weight sums to zero around a cycle -/
+theorem chain_telescope (g : IPt → Int) (z : IPt) : ∀ (l : List IPt) (a : IPt),
+    chain (fun u v => g u - g v) (a :: l ++ [z]) = g a - g z := by
+  intro l
+  induction l with
+  | nil => intro a; simp [chain]
+  | cons b l ih =>
+    intro a
+    have := ih b
+    simp only [List.cons_append, chain] at this ⊢
+    rw [this]
+    omega
+
+theorem cyc_telescope (g : IPt → Int) (l : List IPt) : cyc (fun u v => g u - g v) l = 0 := by
+  cases l with
+  | nil => simp [cyc, edgesOf]
+  | cons a rest =>
+    rw [cyc_cons, chain_telescope]
+    omega
+
+theorem chain_add (f g : IPt → IPt → Int) : ∀ l : List IPt,
+    chain (fun a b => f a b + g a b) l = chain f l + chain g l := by
+  intro l
+  induction l with
+  | nil => simp [chain]
+  | cons a l ih =>
+    cases l with
+    | nil => simp [chain]
+    | cons b l => simp only [chain] at ih ⊢; rw [ih]; omega
+
+theorem cyc_add (f g : IPt → IPt → Int) (l : List IPt) :
+    cyc (fun a b => f a b + g a b) l = cyc f l + cyc g l := by
+  cases l with
+  | nil => simp [cyc, edgesOf]
+  | cons a rest => rw [cyc_cons, cyc_cons, cyc_cons, chain_add]
+
+theorem edgesOf_map (g : IPt → IPt) (l : List IPt) :
+    edgesOf (l.map g) = (edgesOf l).map (fun e => (g e.1, g e.2)) := by
+  cases l with
+  | nil => simp [edgesOf]
+  | cons a rest =>
+    simp only [List.map_cons, edgesOf]
+    have : List.map g rest ++ [g a] = List.map g (rest ++ [a]) := by simp
+    rw [this, ← List.map_cons, List.zip_map]
+    rfl
+
+theorem cyc_map (f : IPt → IPt → Int) (g : IPt → IPt) (l : List IPt) :
+    cyc f (l.map g) = cyc (fun a b => f (g a) (g b)) l := by
+  unfold cyc
+  rw [edgesOf_map, List.map_map]
+  rfl
+
+/-! ### the edge weight -/
+
+theorem cross_swap (a b : IPt) (p : QPt) : cross b a p = - cross a b p := by
+  unfold cross
+  push_cast
+  ring
+
+theorem edgeW_swap (p : QPt) (a b : IPt) : edgeW b a p = - edgeW a b p := by
+  unfold edgeW
+  rw [cross_swap a b p]
+  simp only [neg_pos, neg_lt_zero]
+  by_cases hA : (a.y : Rat) ≤ p.y ∧ p.y < (b.y : Rat) ∧ 0 < cross a b p <;>
+    by_cases hB : (b.y : Rat) ≤ p.y ∧ p.y < (a.y : Rat) ∧ cross a b p < 0
+  · exfalso; linarith [hA.1, hA.2.1, hB.1, hB.2.1]
+  · simp [hA, hB]
+  · simp [hA, hB]
+  · simp [hA, hB]
+
+theorem edgeW_self (p : QPt) (a : IPt) : edgeW a a p = 0 := by
+  have := edgeW_swap p a a
+  omega
+
+theorem cross_translate (a b : IPt) (dx dy : Int) (p : QPt) :
+    cross ⟨a.x + dx, a.y + dy⟩ ⟨b.x + dx, b.y + dy⟩ ⟨p.x + dx, p.y + dy⟩ = cross a b p := by
+  unfold cross
+  push_cast
+  ring
+
+theorem edgeW_translate (a b : IPt) (dx dy : Int) (p : QPt) :
+    edgeW ⟨a.x + dx, a.y + dy⟩ ⟨b.x + dx, b.y + dy⟩ ⟨p.x + dx, p.y + dy⟩ = edgeW a b p := by
+  unfold edgeW
+  rw [cross_translate]
+  simp only [Int.cast_add, add_le_add_iff_right, add_lt_add_iff_right]
+
+/-! ### the laws -/
+
+theorem perm_sum_eq {l1 l2 : List Int} (h : l1.Perm l2) : l1.sum = l2.sum := by
+  induction h with
+  | nil => rfl
+  | cons x _ ih => simp only [List.sum_cons, ih]
+  | swap x y l => simp only [List.sum_cons]; omega
+  | trans _ _ ih1 ih2 => rw [ih1, ih2]
+
+
+theorem wind_rot (path : List IPt) (k : Nat) (p : QPt) :
+    wind (path.drop k ++ path.take k) p = wind path p := by
+  rw [wind_eq_cyc, wind_eq_cyc, cyc_rot]
+
+theorem wind_reverse (path : List IPt) (p : QPt) : wind path.reverse p = - wind path p := by
+  rw [wind_eq_cyc, wind_eq_cyc]
+  exact cyc_reverse_antisymm _ (edgeW_swap p) path
+
+theorem wind_repeat_vertex (pre post : List IPt) (v : IPt) (p : QPt) :
+    wind (pre ++ v :: v :: post) p = wind (pre ++ v :: post) p := by
+  rw [wind_eq_cyc, wind_eq_cyc]
+  exact cyc_repeat _ v (edgeW_self p v) pre post
+
+theorem wind_closing_vertex (v : IPt) (rest : List IPt) (p : QPt) :
+    wind (v :: rest ++ [v]) p = wind (v :: rest) p := by
+  rw [wind_eq_cyc, wind_eq_cyc]
+  exact cyc_closing _ v (edgeW_self p v) rest
+
+theorem windS_perm (a b : List (List IPt)) (h : a.Perm b) (p : QPt) : windS a p = windS b p := by
+  unfold windS
+  exact perm_sum_eq (h.map _)
+
+theorem windS_reverse_all (a : List (List IPt)) (p : QPt) :
+    windS (a.map List.reverse) p = - windS a p := by
+  unfold windS
+  induction a with
+  | nil => simp
+  | cons q a ih =>
+    simp only [List.map_cons, List.sum_cons] at ih ⊢
+    rw [ih, wind_reverse]; omega
+
+theorem wind_translate (path : List IPt) (dx dy : Int) (p : QPt) :
+    wind (path.map fun v => ⟨v.x + dx, v.y + dy⟩) ⟨p.x + dx, p.y + dy⟩ = wind path p := by
+  rw [wind_eq_cyc, wind_eq_cyc, cyc_map]
+  exact cyc_congr _ _ (fun a b => edgeW_translate a b dx dy p) path
+
+theorem area2_reverse (path : List IPt) : area2 path.reverse = - area2 path := by
+  rw [area2_eq_cyc, area2_eq_cyc]
+  apply cyc_reverse_antisymm
+  intro a b
+  ring
+
+theorem area2_translate (path : List IPt) (dx dy : Int) :
+    area2 (path.map fun v => ⟨v.x + dx, v.y + dy⟩) = area2 path := by
+  rw [area2_eq_cyc, area2_eq_cyc, cyc_map]
+  have h : ∀ a b : IPt,
+      (a.y + dy + (b.y + dy)) * (a.x + dx - (b.x + dx)) =
+        (a.y + b.y) * (a.x - b.x) + ((2 * dy * a.x) - (2 * dy * b.x)) := by
+    intro a b; ring
+  rw [cyc_congr _ _ h, cyc_add, cyc_telescope (fun v => 2 * dy * v.x)]
+  omega
+
+/-! ### fill rules -/
+
+theorem filled_neg (w : Int) :
+    filled 0 (-w) = filled 0 w ∧ filled 1 (-w) = filled 1 w ∧ filled 2 (-w) = filled 3 w ∧
+      filled 3 (-w) = filled 2 w := by
+  refine ⟨?_, ?_, ?_, ?_⟩
+  · have h : (-w) % 2 = w % 2 := by omega
+    simp only [filled, h]
+  · simp only [filled]
+    rw [Bool.eq_iff_iff]
+    simp only [bne_iff_ne]
+    omega
+  · simp only [filled]; congr 1; apply propext; omega
+  · simp only [filled]; congr 1; apply propext; omega
+
+theorem specIn_swap (ct fr : Nat) (wS wC : Int) (h : ct = 1 ∨ ct = 2 ∨ ct = 4) :
+    specIn ct fr wS wC = specIn ct fr wC wS := by
+  unfold specIn
+  rcases h with h | h | h <;> subst h <;> simp only [combine]
+  · exact Bool.and_comm _ _
+  · exact Bool.or_comm _ _
+  · cases filled fr wS <;> cases filled fr wC <;> rfl
+
+theorem specIn_reverse_all (ct : Nat) (wS wC : Int) :
+    specIn ct 2 (-wS) (-wC) = specIn ct 3 wS wC ∧ specIn ct 3 (-wS) (-wC) = specIn ct 2 wS wC ∧
+    specIn ct 0 (-wS) (-wC) = specIn ct 0 wS wC ∧ specIn ct 1 (-wS) (-wC) = specIn ct 1 wS wC := by
+  obtain ⟨a0, a1, a2, a3⟩ := filled_neg wS
+  obtain ⟨b0, b1, b2, b3⟩ := filled_neg wC
+  unfold specIn
+  rw [a0, a1, a2, a3, b0, b1, b2, b3]
+  exact ⟨rfl, rfl, rfl, rfl⟩
+
 end Proofs.C17
